@@ -649,6 +649,23 @@ def has_empty_site(node, run, include_branches=True):
     return any(i0 == i1 for (_n, _a, _r, i0, i1) in run.calls.values())
 
 
+def has_zero_length(node):
+    if node["k"] in ("vmap", "repeat", "scan") and node.get("n", 1) == 0:
+        return True
+    subs = [node[k_] for k_ in ("g", "a", "b") if isinstance(node.get(k_), dict)] + list(node.get("bs", [])) + [s_["callee"] for s_ in node.get("stmts", [])]
+    return any(has_zero_length(x) for x in subs)
+
+
+def is_empty_sample_rejection(e, node, run):
+    """the recorded finding assess_empty_sample: assess rejects a complete sample that omits non-executed code
+    (MissingAddress), or -- for a zero-length map applied directly to a distribution -- fails on the value None"""
+    if type(e).__name__ == "MissingAddress" and has_empty_site(node, run):
+        return True
+    if isinstance(e, ValueError) and "(None)" in str(e) and has_zero_length(node):
+        return True
+    return False
+
+
 def static_part(path):
     return tuple(c for c in path if isinstance(c, str))
 
